@@ -98,6 +98,17 @@ def interpod(s):
     return any(p.get("aff") or p.get("anti") or any(x.get("when") == "DoNotSchedule" for x in p.get("spread", [])) for p in s["pods"])
 
 
+_CFG_LINES = {}
+
+
+def trace_of(path, line):
+    """index of the trace (Cfg .. End) of a trace file that contains `line`"""
+    import bisect
+    if path not in _CFG_LINES:
+        _CFG_LINES[path] = [i + 1 for i, x in enumerate(open(path)) if '"e":"Cfg"' in x]
+    return bisect.bisect_right(_CFG_LINES[path], int(line))
+
+
 def tlc_weak(run, w):
     """run one spec mutation (own TLC process and metadir, so that they can run side by side); returns the violated invariant"""
     import re
@@ -192,14 +203,24 @@ def check(run):
     viol_end = run.validate("Topology_Trace", "Topology_TraceEnd.cfg", files, par=par, timeout=3000)
     run.traces_validated, run.events_validated = counted      # the second pass judges the same traces
     notes = [v for v in viol if str(v.get("guard", "")).startswith("Note_")]
-    run.viol = [v for v in run.viol if not str(v.get("guard", "")).startswith("Note_")]
+    judged = [v for v in viol if v not in notes]
+    if hooked:
+        # with the hook every pass was already judged at admission time, with narrow signatures; the order-free forms are weaker, so each of
+        # their failures must fall into a trace the admission-time guards failed on too - one that does not is reported on its own
+        failed = {(v["file"], trace_of(v["file"], v["line"])) for v in judged}
+        unexplained = [v for v in viol_end if (v["file"], trace_of(v["file"], v["line"])) not in failed]
+        run.notes.append("end-state forms (no hook needed): %d failures, %d of them in passes the admission-time guards did not fail on"
+                         % (len(viol_end), len(unexplained)))
+        run.viol = judged + unexplained
+    else:
+        run.viol = judged + viol_end
     run.samples = [{"scenario": scenarios[0]["name"], "summary": sums[0]}, {"scenario": scenarios[-1]["name"], "summary": sums[-1]}]
     run.extra_cov.update({
         "tlc_enumerated_scenarios": total_enum, "tlc_scenarios_replayed": replayed, "tlc_scenario_order_variants": n_enum,
         "explorer_scenarios": sum(tier["explore"].values()),
         "pods_on_new_claims": sum(s.get("onNew", 0) for s in sums), "pods_on_existing_nodes": sum(s.get("onExisting", 0) for s in sums),
         "new_claims": sum(s.get("claims", 0) for s in sums), "pod_errors": sum(s.get("errors", 0) for s in sums),
-        "admission_time_guards": hooked, "guard_failures_admission_mode": len([v for v in viol if v not in notes]),
+        "admission_time_guards": hooked, "guard_failures_admission_mode": len(judged),
         "guard_failures_end_state_mode": len(viol_end),
         "model_drift_notes_code_counts_outside_spec_interval": len(notes)})
     if notes:
